@@ -48,6 +48,9 @@ Proof. intros [] H; cbn; try congruence; reflexivity. Qed.
 Lemma Rv_some : forall v a, Rv v (Some a) -> a = inj v.
 Proof. intros [] a H; cbn in *; try congruence. destruct H; congruence. Qed.
 
+Lemma Rv_or_null : forall v o, Rv v o -> Rv v (Some (or_null o)).
+Proof. intros [] o H; cbn in *; try (subst o; reflexivity). destruct H as [-> | ->]; cbn; auto. Qed.
+
 Lemma Rx_as_val : forall v x, Rx v x -> Rv v (as_val x).
 Proof.
   intros v [[b|]|o] H; cbn in *; subst; cbn; auto.
